@@ -22,12 +22,35 @@ theorem C01_settle_mode_fact : Facts.settleMode = "+= player.Changed" := by deci
 that takes no engine lock cannot be dropped with a table that is thrown away (D31; regenerated from the source) -/
 theorem C01_live_table_never_swapped_fact : Facts.teTableAssigned = ["CreateTable"] := by decide
 
+/-- `PlayerRedeemChips` credits the chips with one `+=` on the live entry and only then talks to the seat manager: the
+read-modify-write of the bankroll does not span another call (regenerated from table_engine.go) -/
+theorem C01_redeem_credit_fact : Facts.redeemSteps = ["playerState.Bankroll += joinPlayer.RedeemChips", "tell-seat-manager"] := by
+  decide
+
 /-- **C01 — the ledger balances in every reachable state** (hence whenever no hand is in progress): for every table
 configuration and every sequence of operations and internal events, of any length, the bankrolls sum to what was
 brought in minus what departing players took with them. -/
 theorem C01_ledger (cfg : Meta) (b : Blind) (evs : List Event) (hz : ResultsConserve evs) :
     total (run (create cfg b) evs) = (run (create cfg b) evs).broughtIn - (run (create cfg b) evs).takenOut :=
   ledger_run _ evs (ledger_create cfg b) hz
+
+/-- … also from a table created with players (`CreateTable` with `JoinPlayers`): what they brought is booked as brought in -/
+theorem C01_ledger_created_with_players (cfg : Meta) (b : Blind) (js : List Join) (ch : List Int) (evs : List Event)
+    (hz : ResultsConserve evs) :
+    total (run (createWith cfg b js ch).1 evs) =
+      (run (createWith cfg b js ch).1 evs).broughtIn - (run (createWith cfg b js ch).1 evs).takenOut := by
+  have h0 : Ledger (createWith cfg b js ch).1 := by
+    unfold createWith createJoin
+    split
+    · exact ledger_create cfg b
+    · have hb := ledger_batchAdd (create cfg b) js ch (ledger_create cfg b)
+      simp only
+      split
+      · split
+        · exact hb
+        · exact hb
+      · exact hb
+  exact ledger_run _ evs h0 hz
 
 /-- **C01 — a completed hand changes each player's bankroll by exactly what the result credits to them through the
 hand's list, and nobody else's**: player index `k` gains the sum of the result entries whose game index maps to `k`
